@@ -94,10 +94,14 @@ Definition cident (ce : cenv) (x : string) (nk na : nat) : frag :=
   let after_scopes :=
     if is_last_result x then {| f_consts := []; f_code := [IGetLastResult]; f_na := na |}
     else match fn_lookup x (c_functions ce) with
-         | Some is_foreign =>
-             let r := if is_foreign then FForeign x
-                      else FNormal x (match rposition x (c_chunks ce) with Some i => i | None => 0 end) in
-             {| f_consts := [CFunRef r]; f_code := [ILoadConstant nk]; f_na := na |}
+         | Some true =>
+             {| f_consts := [CFunRef (FForeign x)]; f_code := [ILoadConstant nk]; f_na := na |}
+         | Some false =>
+             (* FunctionReference::Normal(name, get_function_idx(name)) *)
+             match rposition x (c_chunks ce) with
+             | Some i => {| f_consts := [CFunRef (FNormal x i)]; f_code := [ILoadConstant nk]; f_na := na |}
+             | None => {| f_consts := []; f_code := [ICompilePanic]; f_na := na |}
+             end
          | None => {| f_consts := []; f_code := [ICompilePanic]; f_na := na |}
          end in
   match c_locals ce with
@@ -305,8 +309,24 @@ Definition compile (procs : list string) (p : program Q) : compiled :=
 
 (* no compile-time panic, every u16 cast exact, every chunk below 2^16 bytes,
    at most 2^16-1 constants (add_constant asserts this) *)
+(* Vm::current_offset / compile_statement (repair of finding C09-jump-offset-wrap): a
+   conditional whose code ends beyond byte 65532 of its chunk cannot be encoded with
+   16 bit jump operands; compile_statement then fails with RuntimeErrorKind::CodeTooLarge
+   instead of silently truncating the offsets.  Jump instructions are only emitted by
+   conditionals; [pos + 3 + o] is the end_offset of that conditional. *)
+Fixpoint jumps_overflow (c : list instr) (pos : nat) : bool :=
+  match c with
+  | [] => false
+  | i :: r =>
+      (match i with IJump o => Nat.leb U16 (6 + o + pos) | _ => false end)
+      || jumps_overflow r (isize i + pos)
+  end.
+
 Definition chunk_ok (c : list instr) : bool :=
-  forallb (fun i => negb (is_marker i)) c && Nat.ltb (csize c) U16.
+  forallb (fun i => negb (is_marker i)) c && (Nat.ltb (csize c) U16 && negb (jumps_overflow c 0)).
+Definition code_too_large (c : compiled) : bool :=
+  existsb (fun nc => jumps_overflow (snd nc) 0) (p_chunks c).
+
 Definition compile_ok (c : compiled) : bool :=
   forallb (fun nc => chunk_ok (snd nc)) (p_chunks c) && Nat.ltb (length (p_consts c)) U16.
 
